@@ -392,6 +392,12 @@ class ConditionLike:
                                     DTYPE_LOOKUP[i.lower() if isinstance(i, str) else i]
                                     for i in spec_val
                                 ]
+                            elif isinstance(spec_val, dict):
+                                # keyword arguments
+                                spec_val = {
+                                    k: DTYPE_LOOKUP[i.lower() if isinstance(i, str) else i]
+                                    for k, i in spec_val.items()
+                                }
                             else:
                                 spec_val = DTYPE_LOOKUP[
                                     spec_val.lower()
